@@ -35,7 +35,7 @@ FACTS = [
 
 def plan(tier, seed):
     if tier == 'quick':
-        return {'n': 16000, 'deadline': 50,
+        return {'n': 16000, 'deadline': 150,
                 'floor': {'distinct_nontrivial': 2000, 'b_call': 3000, 'b_once': 1500, 'b_findall': 1500,
                           'b_=': 1000, 'b_\\=': 500, 'goal_in_variable': 1500, 'failing_goal_once': 100}}
     return {'n': 400000, 'deadline': 560,
